@@ -31,7 +31,8 @@ Next ==
   /\ LET e == Rec[l]  bad == Bad(e) IN
      IF bad = {} THEN TRUE
      ELSE Report("VIOL", [l |-> l, seg |-> l, secondary |-> FALSE, conjs |-> bad,
-                          sig |-> [conj |-> CHOOSE c \in bad : TRUE, op |-> "hostile", kind |-> "confine", cfg |-> e.cfg,
+                          sig |-> [conj |-> CHOOSE c \in bad : TRUE, op |-> "hostile", kind |-> IF "kindtag" \in DOMAIN e THEN e.kindtag ELSE "confine", cfg |-> e.cfg,
+                                   panicking |-> {e.ops[i].op : i \in {j \in DOMAIN e.ops : e.ops[j].c = "panic"}},
                                    dotdot |-> e.shape.dotdot, doubled_slash |-> e.shape.dslash, absolute |-> e.shape.abs]])
   /\ l' = l + 1
 Init == l = 1
